@@ -1518,3 +1518,123 @@ var errorsDiscardedReviewed = map[string]string{
 	"(*pkg/zebra.lookupBody).decodeFromBytes|addressByteLength":              "the family is one of the two constants the function accepts",
 	"pkg/packet/bgp.GetRouteDistinguisher|NewRouteDistinguisherIPAddressAS":  "the address is built from exactly four octets and is therefore always IPv4",
 }
+
+// ruleValidatorTestsSubject: every comparison a validator makes between two non-constant values involves the
+// thing being validated.
+func (c *Ctx) ruleValidatorTestsSubject(rule string, validators map[string]int, min int) {
+	r := c.R
+	r.Rule(rule, "in the message validators every comparison between two non-constant values has at least one operand derived from the message being validated (through field loads, conversions, calls on it, capability scans, phis): a check that compares only configuration with configuration — e.g. deciding 'internal peer' from the configured peer AS instead of the AS the OPEN announces — no longer validates the message", min)
+	var keys []string
+	for k := range validators {
+		keys = append(keys, k)
+	}
+	sort.Strings(keys)
+	for _, k := range keys {
+		fn := c.P.Func(k)
+		if fn == nil {
+			r.Undec(rule, k, "anchor", "-", "not found")
+			continue
+		}
+		if validators[k] >= len(fn.Params) {
+			r.Undec(rule, k, "anchor:subject parameter", c.P.Pos(fn.Pos()), "not found")
+			continue
+		}
+		subject := fn.Params[validators[k]]
+		memo := map[ssa.Value]int{} // 1 = in progress, 2 = derived, 3 = not
+		var derived func(v ssa.Value) bool
+		derived = func(v ssa.Value) bool {
+			if v == ssa.Value(subject) {
+				return true
+			}
+			switch memo[v] {
+			case 1, 3:
+				return false
+			case 2:
+				return true
+			}
+			memo[v] = 1
+			res := false
+			var ops []*ssa.Value
+			if in, ok := v.(ssa.Instruction); ok {
+				ops = in.Operands(nil)
+			}
+			switch v.(type) {
+			case *ssa.Const, *ssa.Parameter, *ssa.Global, *ssa.Function, *ssa.Builtin, *ssa.Alloc, *ssa.MakeSlice, *ssa.MakeMap, *ssa.MakeChan:
+				ops = nil
+			}
+			for _, op := range ops {
+				if *op != nil && derived(*op) {
+					res = true
+					break
+				}
+			}
+			// a local variable (Alloc) that is assigned a derived value
+			if u, ok := v.(*ssa.UnOp); ok && !res {
+				if al, ok := u.X.(*ssa.Alloc); ok && al.Referrers() != nil {
+					for _, ref := range *al.Referrers() {
+						if st, ok := ref.(*ssa.Store); ok && st.Addr == ssa.Value(al) && derived(st.Val) {
+							res = true
+						}
+					}
+				}
+			}
+			if res {
+				memo[v] = 2
+			} else {
+				memo[v] = 3
+			}
+			return res
+		}
+		n := 0
+		// loop bookkeeping (an index against a length) is not a validation test
+		isLoopish := func(v ssa.Value) bool {
+			v = stripConv(v)
+			if call, ok := v.(*ssa.Call); ok {
+				if bi, ok := call.Call.Value.(*ssa.Builtin); ok && (bi.Name() == "len" || bi.Name() == "cap") {
+					return true
+				}
+			}
+			if bo, ok := v.(*ssa.BinOp); ok && bo.Op == token.ADD {
+				if ph, ok := bo.X.(*ssa.Phi); ok {
+					for _, e := range ph.Edges {
+						if e == ssa.Value(bo) {
+							return true
+						}
+					}
+				}
+			}
+			return false
+		}
+		for _, f := range []*ssa.Function{fn} { // closures and helpers take their own arguments
+			for _, b := range f.Blocks {
+				for _, in := range b.Instrs {
+					bo, ok := in.(*ssa.BinOp)
+					if !ok {
+						continue
+					}
+					switch bo.Op {
+					case token.EQL, token.NEQ, token.LSS, token.LEQ, token.GTR, token.GEQ:
+					default:
+						continue
+					}
+					if _, isK := stripConv(bo.X).(*ssa.Const); isK {
+						continue
+					}
+					if _, isK := stripConv(bo.Y).(*ssa.Const); isK {
+						continue
+					}
+					if isLoopish(bo.X) && isLoopish(bo.Y) {
+						continue
+					}
+					n++
+					cons := fmt.Sprintf("comparison #%d", n)
+					if derived(bo.X) || derived(bo.Y) {
+						r.Ok(rule, k, cons, c.P.InstrPos(bo), "involves the message")
+					} else {
+						r.Bad(rule, k, cons, c.P.InstrPos(bo), "compares "+describeVal(bo.X, 0)+" with "+describeVal(bo.Y, 0)+": neither comes from the message being validated")
+					}
+				}
+			}
+		}
+	}
+}
